@@ -69,7 +69,8 @@ func evilName(r *Rand, real []string, outer string) string {
 	case 6:
 		return strings.Repeat("../", r.Range(2, 12)) + "etc/passwd"
 	case 7:
-		return outer + "/canary.txt"
+		// absolute spellings, also ones that begin with the server's own path of the exported root and leave it again
+		return outer + []string{"/canary.txt", "/root/../canary.txt", "/root/../canarydir", "/root/sub/../../canary.txt", "/root/..", "/root/../root.bak/canary.txt", "/root/./../canarydir/inside.txt"}[r.Intn(7)]
 	case 8:
 		return "/etc/passwd"
 	case 9:
@@ -275,9 +276,12 @@ func c18Exec(x *Ctx) {
 					perm, ext = uint32(r.Pick(0x00200000, 0x00800000, 0x00100000))|0o644, []string{"", "c 1 3"}[r.Intn(2)]
 					x.Probe("create-special-kind")
 				}
-				if rr := call(&Msg{Type: Tcreate, Fid: 3, Name: en, Perm: perm, Mode: uint8(r.Pick(0, 1)), Ext: ext}); rr != nil && rr.M != nil && rr.M.Type == Rcreate {
+				if rr := call(&Msg{Type: Tcreate, Fid: 3, Name: en, Perm: perm, Mode: uint8(r.Pick(0, 1, 2)), Ext: ext}); rr != nil && rr.M != nil && rr.M.Type == Rcreate {
 					what := fmt.Sprintf("%s + Tcreate(%q, perm %#x)", what, en, perm)
 					checkQid(rr.M.Qid, what)
+					if rd := call(&Msg{Type: Tread, Fid: 3, Offset: 0, Count: 200}); rd != nil && rd.M != nil && rd.M.Type == Rread && bytes.Contains(rd.M.Data, []byte(canaryText)) {
+						x.Violate("x1-read-outside", "%s: a read through the fid of the created object returned the content of a file outside the exported tree", what)
+					}
 					call(&Msg{Type: Twrite, Fid: 3, Offset: 0, Count: 4, Data: []byte("evil")})
 					// the fid now designates whatever was created: look at it, and around it
 					if sr := call(&Msg{Type: Tstat, Fid: 3}); sr != nil && sr.M != nil && sr.M.Type == Rstat {
